@@ -3,6 +3,7 @@ C16 — "every font … it names is defined in the resource dictionary in effect
 `draw_first_line`, `Stream.add_font` and `build_fonts_dictionary` (Model/PdfFonts).
 -/
 import WpModel.Model.PdfFonts
+import WpModel.Lemmas.PdfFontsW
 
 namespace Wp.C16
 open Wp Wp.Pdf Wp.PdfFonts
@@ -206,9 +207,30 @@ example :
       ⟨2, 2, { hash := "IKCJUC" }, .int 10, ">-0.0<"⟩]).1.map (·.2)) true = .ok ["BAWKYD", "IKCJUC", "ZaDb"] := by
   constructor <;> rfl
 
-/-- The `/W` array groups consecutive glyph ids, a reader gets the width table back; `/CIDSet` has one bit per used
-glyph id, most significant bit first (examples; the functions are tied to `_build_vector_font_dictionary` by the
-`font-arrays` correspondence). -/
+/-- **w_array_round_trip**: for every glyph width table (glyph ids in strictly increasing order: `sorted(widths)` of a
+dict — any gaps, runs, glyph 0, a single glyph, none), building the `/W` array of the CID font does not fail
+(`current_widths` is always bound) and a PDF reader that expands its `c [w1 … wn]` groups (PDF 32000-1 9.7.4.3) gets
+exactly the table back: every used glyph id with its width, no other glyph id, in order. -/
+theorem w_array_round_trip (pairs : List (Nat × Int)) (hs : (pairs.map (·.1)).Pairwise (· < ·)) :
+    ∃ items, wArray pairs = .ok items ∧ wDecode items = pairs := by
+  obtain ⟨out, ho, hd⟩ := wLoop_spec (pairs.map (·.1)) pairs [] [] (by simp) (by simpa using hs)
+    ⟨rfl, fun h => absurd rfl h, fun g p hg _ => by simp at hg⟩
+  refine ⟨out.flatMap (fun g => [WItem.cid g.1, WItem.widths g.2]), by simp [wArray, ho, Except.map], ?_⟩
+  rw [wDecode_groups, hd]; simp
+
+/-- **cid_set_bits**: the `/CIDSet` bit string is a whole number of bytes, long enough for the last glyph id, and bit
+`i` (most significant bit of byte 0 first) is set exactly when glyph id `i` is used. -/
+theorem cid_set_bits (cids : List Nat) (last : Nat) :
+    (cidSetBits cids last).length % 8 = 0 ∧ last < (cidSetBits cids last).length ∧
+    ∀ i, i < (cidSetBits cids last).length → (cidSetBits cids last)[i]? = some (cids.contains i) := by
+  have hl : (cidSetBits cids last).length = (last + 1 + 7) / 8 * 8 := by simp [cidSetBits]
+  refine ⟨by rw [hl]; omega, by rw [hl]; omega, ?_⟩
+  intro i hi
+  rw [hl] at hi
+  simp [cidSetBits, List.getElem?_range, hi]
+
+/-- Examples of both (the functions are tied to `_build_vector_font_dictionary` by the `font-arrays`
+correspondence). -/
 example : (wArray [(0, 500), (1, 600), (3, 250), (7, 10), (8, 20)]).map wDecode =
     .ok [(0, 500), (1, 600), (3, 250), (7, 10), (8, 20)] := rfl
 
